@@ -23,7 +23,7 @@ ASSUMPTIONS = ['a stream read with a /Length different from its payload length d
                'header offset + any offset written in the file < 2^64; object values nest less than 50 deep',
                'documented reading of layouts: the /Length of an xref stream is direct; /W widths are at most 4 bytes '
                '(wider fields are refused by XrefStreamP: C13)']
-CASE_TIMEOUT = 120
+CASE_TIMEOUT = 60
 
 
 def doc(rng, **kw):
@@ -142,11 +142,30 @@ def malformed_cases(rng, n):
                 line = ' '.join(t)
         if line:
             out.append(line)
+    # hybrid sections whose /XRefStm is wrong; type-2 entries that name something that is not an object stream
+    for _ in range(n // 2):
+        seed = rng.getrandbits(48)
+        if rng.random() < 0.6:
+            h = doc(rng, nobj=(3, 8), kinds=('hybrid',))
+            line, info = L.render_history(seed, h, b'', 'other')
+            if not line:
+                continue
+            offs = [it.off for it in info['items']]
+            kinds = {it.off: it.kind for it in info['items']}
+            tgt = rng.choice([info['flen'], info['flen'] + 1, info['flen'] - 1, 2 ** 63 - 1, 0] + offs)
+            h[0].opts['xrefstm_override'] = tgt
+        else:
+            h = doc(rng, nobj=(4, 8), kinds=('stream', 'hybrid'), objstm=1.0)
+            plain = [op.num for op in h[0].ops if isinstance(op, Def) and op.place == 'file' and op.kind in ('obj', 'holder')]
+            h[0].opts['bad_container'] = rng.choice(plain + [77])
+        line, info = L.render_history(seed, h, b'', 'other')
+        if line:
+            out.append(line)
     return out
 
 
 def cases(tier, rng):
-    out = fixed_doc_cases(rng, tier)
+    out = L.tiny_cases() + fixed_doc_cases(rng, tier)
     n = 900 if tier == 'quick' else 25000
     for i in range(n):
         r = rng.random()
